@@ -476,7 +476,10 @@ class C17(Property):
         if th is None:
           continue
         st = th._sim_thread
-        parts.append((st.last_line, th.go.flag, th.halting,
+        # (coverage measure only; whatever these attributes are today)
+        parts.append((st.last_line,
+                      getattr(getattr(th, "go", None), "flag", None),
+                      getattr(th, "halting", None),
                       st.state == "finished", st.state == "blocked"))
       if aio is not None:
         parts.append((len(getattr(aio, "_threads", ())), aio.finished))
